@@ -148,7 +148,7 @@ def run(chk):
                 "CameraViewPort — substituted for each validated argument of Data3D, ForceTorque3D, CalibrationDataBlock, "
                 "CameraViewPort, SeelabCameraData, OpticalChannelData, the viewport of BTSCameraData (others valid; an accepted viewport argument must be held as the numbers given), and two or three geometry arguments wrong at once (all triples over 12 values; all pairs of Seelab positions over 6 values); ForceTorqueTrack: all triples over a "
                 "12-shape subset + non-arrays; Event: every value x both kinds; observed: accepted / exception class, and "
-                "nBytes vs encoded length of every accepted object; a sample of the single-argument cases taken again after successful and after failed (cut, damaged) decodes of every block type; non-trivial = the substituted value is not the valid one")
+                "nBytes vs encoded length of every accepted object; a sample of the single-argument cases taken again after successful and after failed (cut, damaged) decodes of every block type; all single-argument cases once more in an interpreter started with -O; non-trivial = the substituted value is not the valid one")
     chk.exhaustive = True
     cases = []           # (ctor id, name, argpos, margs, thunk, mval, desc)
     for cid, name, build, valid, argnames in constructors():
@@ -206,6 +206,9 @@ def run(chk):
         return
     # the same verdicts whatever happened before in the process: after decodes that FAILED half-way (a truncated or damaged
     # stream of each block type) and after decodes that succeeded — a constructor has no memory
+    optimised_interpreter(chk)
+    if chk.n_found():
+        return
     rng = common.rng_for(chk.seed, "C19-history")
     single = [(c, m) for c, m in zip(cases, mres) if c[0] <= 5 and len(c) == 7]
     rng.shuffle(single)
@@ -217,6 +220,60 @@ def run(chk):
         judge_all(chk, single[k:k + 25], "after %s: " % what)
         if chk.n_found():
             return
+
+
+def single_argument_verdicts():
+    """[(description, None | exception name)] for every validated constructor argument x every value of the universe, in a
+    fixed order (used to compare two interpreters)"""
+    uni = universe(True)
+    out = []
+    for cid, name, build, valid, argnames in constructors():
+        for pos in range(len(valid)):
+            for m, p, desc in (x[:3] for x in uni):
+                pargs = [v[1] for v in valid]
+                pargs[pos] = p
+                try:
+                    build(pargs)
+                    rc = None
+                except Exception as e:
+                    rc = api.exc_name(e)
+                out.append(("%s.%s = %s" % (name, argnames[pos], desc), rc))
+    return out
+
+
+def child():
+    """entry point of the second interpreter (python -O): prints its verdicts"""
+    import sys
+    sys.stdout.write(json.dumps([rc for _, rc in single_argument_verdicts()]))
+
+
+def optimised_interpreter(chk):
+    """the same verdicts in an interpreter started with -O (asserts and `if __debug__:` blocks compiled out — how batch
+    converters are often run): argument checks are not debugging aids"""
+    import os
+    import subprocess
+    import sys
+    mine = single_argument_verdicts()
+    env = dict(os.environ)
+    env["PYTHONPATH"] = os.pathsep.join([common.VERIF] + [p for p in env.get("PYTHONPATH", "").split(os.pathsep) if p])
+    p = subprocess.run([sys.executable, "-O", "-W", "ignore", "-c", "from harness import c19; c19.child()"], cwd=common.VERIF, env=env,
+                       stdout=subprocess.PIPE, stderr=subprocess.PIPE, text=True, timeout=900)
+    try:
+        theirs = json.loads(p.stdout)
+    except Exception:
+        chk.violation("C19: the constructors cannot be exercised under python -O: %s" % (p.stderr or p.stdout)[-400:], {"interpreter": "python -O"}, False)
+        return
+    chk.count("verdicts re-taken in an interpreter started with -O", len(theirs))
+    if len(theirs) != len(mine):
+        chk.violation("C19: python -O enumerates %d cases, this interpreter %d" % (len(theirs), len(mine)), {"interpreter": "python -O"}, False)
+        return
+    for (desc, rc), rc2 in zip(mine, theirs):
+        if rc != rc2:
+            chk.violation("C19: under python -O, %s is %s (without -O: %s)" % (desc, "accepted" if rc2 is None else "refused with " + rc2,
+                                                                               "accepted" if rc is None else "refused with " + rc),
+                          {"interpreter": "python -O", "argument": desc}, True)
+            if chk.n_found() >= 3:
+                return
 
 
 def damaged_streams(rng):
